@@ -8,6 +8,8 @@ import (
 	"go/types"
 	"os"
 	"path/filepath"
+	"runtime/debug"
+	"runtime/pprof"
 	"sort"
 	"strings"
 	"time"
@@ -50,7 +52,13 @@ func main() {
 		verbose  = flag.Bool("v", false, "verbose")
 	)
 	flag.Parse()
+	debug.SetGCPercent(400)
 	solverBin = *solverF
+	if pf := os.Getenv("GOSYM_PROF"); pf != "" {
+		f, _ := os.Create(pf)
+		pprof.StartCPUProfile(f)
+		defer pprof.StopCPUProfile()
+	}
 	if *selftest {
 		runSelfTest()
 		return
@@ -85,7 +93,27 @@ func main() {
 	e := NewEngine(prog)
 	e.solver = NewSolver(*timeout)
 	defer e.solver.Close()
-	e.solver.Where = func() string { return strings.Join(lastN(e.stack, 4), " > ") }
+	e.solver.Where = func() string { return strings.Join(lastN(e.stack, 2), " > ") }
+	if os.Getenv("GOSYM_QSTATS") != "" {
+		e.solver.ByWhere = map[string][2]float64{}
+		defer func() {
+			type kv struct {
+				k string
+				v [2]float64
+			}
+			var l []kv
+			for k, v := range e.solver.ByWhere {
+				l = append(l, kv{k, v})
+			}
+			sort.Slice(l, func(i, j int) bool { return l[i].v[1] > l[j].v[1] })
+			for i, x := range l {
+				if i > 15 {
+					break
+				}
+				fmt.Fprintf(os.Stderr, "%6.0f queries %7.2fs  %s\n", x.v[0], x.v[1], x.k)
+			}
+		}()
+	}
 	e.pkgs = pkgs
 	var hfn *ssa.Function
 	for _, p := range prog.AllPackages() {
